@@ -202,93 +202,20 @@ def r01b(model, ctx):
         ctx.check(ok, "R-01b", cons, f"generated code {t.skeleton()!r}",
                   f"generated code {t.skeleton()!r} does not implement {sym!r}: {why}", where)
 
-    # ---- evaluator
-    fn = model.func(f"{PYEVAL}::eval_value")
-    lvs = dispatch_leaves(fn.body, guard=parse_guard)
+    # ---- evaluator: specialise eval_value per operator and compare the residual with the reference semantics
+    from . import evalspec
     for (sym, arity) in sorted(uni):
-      for lf in candidate_leaves(lvs, env_for(sym, arity)):
-        if not handled(lf):
-            continue
-        if sym in ("u", "s") and arity == 1:
-            continue      # decided by R-01d on the whole branch
-        extra = [a[1] for a in lf.conds if a[0] == "unknown"]
-        where = f"{PYEVAL}:{lf.lineno}"
-        cons = f"eval_value:{sym}/{arity}" + (f"@if {' and '.join(extra)}" if extra else "")
-        opn = _operand_names(lf)
-        need(len(opn) >= arity, f"{where}: cannot recover operand variable names for {sym!r}")
-        inv = {v: k for k, v in opn.items()}
-        A = inv.get(0)
-        B = inv.get(1)
-        paths = [p for p in run_paths(lf.body) if p.how == "return"]
-        need(paths, f"{where}: branch for {sym!r} has no return")
-
-        def is_name(n, nm):
-            return isinstance(n, ast.Name) and n.id == nm
-
-        ok, why = False, ""
-        if arity == 2 and sym in BIN_PY and sym not in ("//", "%"):
-            ok = len(paths) == 1 and isinstance(paths[0].ret, ast.BinOp) and isinstance(paths[0].ret.op, BIN_PY[sym]) \
-                 and is_name(paths[0].ret.left, A) and is_name(paths[0].ret.right, B)
-            why = f"expected {A} {sym} {B}"
-        elif arity == 2 and sym in ("//", "%"):
-            zero = [p for p in paths if any(pol and pmatch(f"{B} == 0", t) is not None for t, pol in p.conds)]
-            rest = [p for p in paths if p not in zero]
-            ok = (len(zero) == 1 and const_int(zero[0].ret) == 0 and len(rest) == 1
-                  and any((not pol) and pmatch(f"{B} == 0", t) is not None for t, pol in rest[0].conds)
-                  and isinstance(rest[0].ret, ast.BinOp) and isinstance(rest[0].ret.op, BIN_PY[sym])
-                  and is_name(rest[0].ret.left, A) and is_name(rest[0].ret.right, B))
-            why = f"expected `if {B} == 0: return 0` dominating `{A} {sym} {B}`"
-        elif arity == 2 and sym in CMP_PY:
-            r = paths[0].ret
-            if isinstance(r, ast.Call) and dotted(r.func) == "int" and len(r.args) == 1:
-                r = r.args[0]
-            ok = len(paths) == 1 and isinstance(r, ast.Compare) and len(r.ops) == 1 and isinstance(r.ops[0], CMP_PY[sym]) \
-                 and is_name(r.left, A) and is_name(r.comparators[0], B)
-            why = f"expected int({A} {sym} {B})"
-        elif arity == 1 and sym == "-":
-            ok = len(paths) == 1 and isinstance(paths[0].ret, ast.UnaryOp) and isinstance(paths[0].ret.op, ast.USub) \
-                 and is_name(paths[0].ret.operand, A)
-            why = f"expected -{A}"
-        elif arity == 1 and sym == "~":
-            ok = True
-            for p in paths:
-                r = p.ret
-                if isinstance(r, ast.BinOp) and isinstance(r.op, ast.BitAnd):
-                    r = r.left if isinstance(r.left, ast.UnaryOp) else r.right
-                ok = ok and isinstance(r, ast.UnaryOp) and isinstance(r.op, ast.Invert) and is_name(r.operand, A)
-            why = f"expected ~{A} (masked when unsigned)"
-        elif arity == 1 and sym in ("b", "r|"):
-            r = paths[0].ret
-            if isinstance(r, ast.Call) and dotted(r.func) in ("int", "bool") and len(r.args) == 1:
-                r = r.args[0]
-            ok = len(paths) == 1 and (pmatch(f"{A} != 0", r) is not None or is_name(r, A) and False)
-            why = f"expected int({A} != 0)"
-        elif arity == 1 and sym == "r&":
-            r = paths[0].ret
-            if isinstance(r, ast.Call) and dotted(r.func) == "int" and len(r.args) == 1:
-                r = r.args[0]
-            m = pmatch(f"({A} & _V_M) == _V_M", r)
-            ok = len(paths) == 1 and m is not None and \
-                 pmatch("(1 << value.operands[0].shape().width) - 1", m["_V_M"]) is not None
-            if not ok and m is not None:
-                mm = pmatch("(1 << _V_W) - 1", m["_V_M"])
-                ok = mm is not None and unparse(mm["_V_W"]) in ("value.operands[0].shape().width", "len(value.operands[0])")
-            why = f"expected ({A} & mask) == mask with mask = all-ones of the operand width"
-        elif arity == 1 and sym == "r^":
-            m = pmatch("format(_V_X, 'b').count('1') % 2", paths[0].ret)
-            ok = len(paths) == 1 and m is not None and A in names_in(m["_V_X"])
-            if ok:
-                mm = pmatch(f"{A} & ((1 << _V_W) - 1)", m["_V_X"])
-                ok = mm is not None and unparse(mm["_V_W"]) in ("value.operands[0].shape().width", "len(value.operands[0])")
-            why = f"expected popcount parity of {A} masked to the operand width"
-        elif arity == 1 and sym in ("u", "s"):
-            # decided by R-01d
-            continue
-        else:
-            raise AnalysisError(f"{where}: no reference for operator {sym!r}/{arity}")
-        ctx.check(ok, "R-01b", cons, f"returns {', '.join(unparse(p.ret) for p in paths)}",
-                  f"evaluator branch for {sym!r} returns {', '.join(unparse(p.ret) if p.ret else '-' for p in paths)}: {why}",
-                  where)
+        if (sym, arity) in (("u", 1), ("s", 1), ("~", 1)):
+            continue      # decided by R-01d (masking / sign folding of the whole branch)
+        fn, paths = evalspec.specialise_eval(model, "Operator", sym, arity)
+        if not [p for p in paths if p.how != "raise"]:
+            continue      # not handled at all: R-01a reports it
+        refs = evalspec.EVAL_REF.get((sym, arity))
+        if refs is None:
+            raise AnalysisError(f"{PYEVAL}: no reference semantics for operator {sym!r}/{arity}")
+        line = min(p.lineno for p in paths if p.how != "raise")
+        evalspec.compare(model, ctx, "R-01b", f"eval_value:{sym}/{arity}", f"{PYEVAL}:{line}", paths, refs, evalspec.NAMES,
+                         f"evaluator branch for {sym!r}")
 
 
 # ----------------------------------------------------------------------------------------------- R-01c
@@ -353,81 +280,28 @@ def r01d(model, ctx):
         need(handled(lf), f"eval_value has no branch for {env}")
         return lf
 
-    # ~ : unsigned result must be masked with the node's own width
-    lf = leaf_for(env_for("~", 1))
-    paths = [p for p in run_paths(lf.body) if p.how == "return"]
-    uns = [p for p in paths if any((not pol) and unparse(t) == "value.shape().signed" for t, pol in p.conds)]
-    ok = bool(uns)
-    for p in uns:
-        m = pmatch("~_V_A & _V_M", p.ret)
-        w = _mask_w(m["_V_M"]) if m else None
-        ok = ok and w is not None and unparse(w) in ("value.shape().width", "len(value)")
-    ctx.check(ok, R, "eval_value:~", "unsigned ~ masked to the node's width",
-              "unsigned `~` must be masked to value.shape().width (Python's ~ is negative)", f"{PYEVAL}:{lf.lineno}")
-
-    # u / s
-    lf = leaf_for(env_for("s", 1))
-    paths = [p for p in run_paths(lf.body) if p.how == "return"]
-    need(paths, "eval_value u/s branch has no return")
-    for sym in ("u", "s"):
-        okk = False
-        detail = ""
-        for p in paths:
-            # choose the path consistent with operator == sym and (for s) sign bit set
-            txt = unparse(p.ret)
-            detail += txt + " ; "
-        # structural: result is operand & mask(W) [| -1 << (W-1) under sign test] with W the node's width
-        folded = [p for p in paths if pmatch("_V_A & _V_M | -1 << _V_W - 1", p.ret) is not None]
-        plain = [p for p in paths if pmatch("_V_A & _V_M", p.ret) is not None]
-        if sym == "u":
-            okk = bool(plain) and all(unparse(_mask_w(pmatch("_V_A & _V_M", p.ret)["_V_M"]) or ast.Name("?")) in
-                                      ("value.shape().width", "len(value)") for p in plain)
-        else:
-            okk = bool(folded)
-            for p in folded:
-                m = pmatch("_V_A & _V_M | -1 << _V_W - 1", p.ret)
-                w = _mask_w(m["_V_M"])
-                okk = okk and w is not None and dump(w) == dump(m["_V_W"]) and \
-                      unparse(w) in ("value.shape().width", "len(value)")
-                # the fold must be guarded by operator == "s" and the sign bit test of the same width
-                conds = [unparse(t) for t, pol in p.conds if pol]
-                okk = okk and any('value.operator == \'s\'' in c and "1 << " + unparse(w) + " - 1" in c for c in conds)
-        ctx.check(okk, R, f"eval_value:{sym}", f"masked to the node's width{' and sign-folded at bit W-1' if sym == 's' else ''}",
-                  f"`{sym}` must mask to the node's width" + (" and fold bit W-1 with -1 << (W-1) under operator == 's'"
-                                                            if sym == "s" else "") + f"; paths: {detail}",
-                  f"{PYEVAL}:{lf.lineno}")
-
-    # Slice
-    lf = leaf_for({"class": "Slice"})
-    paths = [p for p in run_paths(lf.body) if p.how == "return"]
-    ok = len(paths) == 1
-    if ok:
-        m = pmatch("(_V_E >> value.start) & _V_M", paths[0].ret)
-        w = _mask_w(m["_V_M"]) if m else None
-        ok = w is not None and unparse(w) in ("value.stop - value.start", "len(value)") and \
-             pmatch("eval_value(sim, value.value)", m["_V_E"]) is not None
-    ctx.check(ok, R, "eval_value:Slice", "(operand >> start) & mask(stop - start)",
-              f"Slice must evaluate to (operand >> start) masked to stop-start bits; found {unparse(paths[0].ret) if paths else '-'}",
-              f"{PYEVAL}:{lf.lineno}")
-
-    # Part (also R-01j: stride applied exactly once)
+    from . import evalspec
+    for sym, fact in (("~", "unsigned ~ masked to the node's width"), ("u", "masked to the node's width"),
+                      ("s", "masked to the node's width and sign-folded at bit W-1")):
+        fnn, paths = evalspec.specialise_eval(model, "Operator", sym, 1)
+        need([p for p in paths if p.how != "raise"], f"eval_value has no branch for operator {sym!r}")
+        line = min(p.lineno for p in paths if p.how != "raise")
+        evalspec.compare(model, ctx, R, f"eval_value:{sym}", f"{PYEVAL}:{line}", paths, evalspec.EVAL_REF[(sym, 1)],
+                         evalspec.NAMES, f"evaluator branch for {sym!r}")
+    for kind in ("Slice", "Part"):
+        fnn, paths = evalspec.specialise_eval(model, kind)
+        need([p for p in paths if p.how != "raise"], f"eval_value has no branch for {kind}")
+        line = min(p.lineno for p in paths if p.how != "raise")
+        evalspec.compare(model, ctx, R, f"eval_value:{kind}", f"{PYEVAL}:{line}", paths, evalspec.KIND_REF[kind],
+                         evalspec.NAMES, f"evaluator branch for {kind}")
     lf = leaf_for({"class": "Part"})
-    paths = [p for p in run_paths(lf.body) if p.how == "return"]
-    ok = len(paths) == 1
-    if ok:
-        m = pmatch("(_V_E >> _V_O) & _V_M", paths[0].ret)
-        w = _mask_w(m["_V_M"]) if m else None
-        ok = w is not None and unparse(w) in ("value.width", "len(value)") and \
-             pmatch("eval_value(sim, value.value)", m["_V_E"]) is not None
-        if ok:
-            o = m["_V_O"]
-            ok2 = pmatch("eval_value(sim, value.offset) * value.stride", o) is not None or \
-                  pmatch("value.stride * eval_value(sim, value.offset)", o) is not None
-            ctx.check(ok2, "R-01j", "eval_value:Part", "offset multiplied by stride exactly once",
-                      f"Part offset must be eval(offset) * stride, found {unparse(o)}", f"{PYEVAL}:{lf.lineno}")
-    ctx.check(ok, R, "eval_value:Part", "(operand >> offset*stride) & mask(width)",
-              f"Part must evaluate to (operand >> offset) masked to `width` bits; found {unparse(paths[0].ret) if paths else '-'}",
-              f"{PYEVAL}:{lf.lineno}")
+    # R-01j: the stride is applied exactly once (a residual with stride**2 or without stride differs from the reference
+    # above; this instance keeps the separate rule id used by C04's sibling check)
+    fnn, paths = evalspec.specialise_eval(model, "Part")
+    live = [p for p in paths if p.how == "return" and p.ret is not None]
+    n_stride = sum(1 for p in live for n in ast.walk(p.ret) if isinstance(n, ast.Attribute) and n.attr == "stride")
+    ctx.check(len(live) == 1 and n_stride == 1, "R-01j", "eval_value:Part", "offset multiplied by stride exactly once",
+              f"Part offset must be eval(offset) * stride, found {unparse(live[0].ret) if live else '-'}", f"{PYEVAL}:{lf.lineno}")
 
     # Concat: each part masked with its own width before being or-ed in at the running position
     lf = leaf_for({"class": "Concat"})
@@ -437,11 +311,12 @@ def r01d(model, ctx):
     need(len(body_paths) == 1, "eval_value Concat loop body branches")
     env = body_paths[0].env
     res = env.get("res")
-    m = pmatch("res | (_V_P & _V_M) << pos", res) if res is not None else None
     ok = False
-    if m is not None:
-        w = _mask_w(m["_V_M"])
-        ok = w is not None and unparse(w) == "len(part)" and pmatch("eval_value(sim, part)", m["_V_P"]) is not None
+    if res is not None:
+        from ..engine.bitalg import Canon
+        cn = Canon(atom_hook=evalspec.width_sign_hook)
+        want = ast.parse("res | ((eval_value(sim, part) & ((1 << len(part)) - 1)) << pos)", mode="eval").body
+        ok = cn(res) == cn(want)
     ctx.check(ok, R, "eval_value:Concat", "res |= (eval(part) & mask(len(part))) << pos",
               f"Concat must or-in each part masked to its own width at the running offset; found res = "
               f"{unparse(res) if res is not None else '-'}", f"{PYEVAL}:{lf.lineno}")
